@@ -1,7 +1,7 @@
 (* Properties_C09.v — property C09: every policy is a coherent probability distribution over
    actions.  Only statements, each closed by [exact <lemma>] and followed by Print Assumptions. *)
 From Coq Require Import List Arith ZArith QArith Qminmax Bool Lia Lqa.
-From AIT Require Import Base.Qx C09.Model C09.Spec C09.ProofsGreedy C09.ProofsMix C09.ProofsSoftmax C09.ProofsWolf C09.ProofsPga C09.Machines C09.ProofsMachines C09.ProofsEsrl C09.ProofsSr C09.ProofsT3c.
+From AIT Require Import Base.Qx C09.Model C09.Spec C09.ProofsGreedy C09.ProofsMix C09.ProofsSoftmax C09.ProofsWolf C09.ProofsPga C09.Machines C09.ProofsMachines C09.ProofsEsrl C09.ProofsSr C09.ProofsT3c C09.ModelRandom C09.ProofsRandom C09.ModelFactored C09.SpecFactored C09.ProofsFactored.
 Import ListNotations.
 Local Open Scope Q_scope.
 
@@ -385,3 +385,89 @@ Proof. split; [repeat constructor| vm_compute; reflexivity]. Qed.
 Example ex_epsilon_nonvacuous :
   is_distb [1#2; 0; 1#2] = true /\ is_distb (eps_policy (1#4) [1#2; 0; 1#2]) = true.
 Proof. split; vm_compute; reflexivity. Qed.
+
+(* ------------------------------------------------------------------ round 6: RandomPolicy (Bandit, MDP), BanditPolicyAdaptor *)
+
+(* Bandit::RandomPolicy: for every A >= 1 the table has length A, is a distribution, equals the
+   per-action queries, and every entry is positive *)
+Theorem random_dist : forall A, (1 <= A)%nat ->
+  length (rnd_policy A) = A /\ is_dist (rnd_policy A) /\ agrees (rnd_policy A) (rnd_prob A) /\
+  (forall a, (a < A)%nat -> 0 < nthq (rnd_policy A) a).
+Proof. exact random_dist_lemma. Qed.
+Print Assumptions random_dist.
+
+(* sampleAction: any draw of uniform_int_distribution(0, A-1) is an action < A of positive probability *)
+Theorem random_sample_in_support : forall A draw, (1 <= A)%nat ->
+  (fst (rnd_bounds A) <= draw <= snd (rnd_bounds A))%nat ->
+  (rnd_sample A draw < A)%nat /\ in_support (rnd_policy A) (rnd_sample A draw) /\
+  0 < rnd_prob A (rnd_sample A draw).
+Proof. exact random_sample_lemma. Qed.
+Print Assumptions random_sample_in_support.
+
+(* MDP::BanditPolicyAdaptor over ANY coherent bandit policy: S rows, each the bandit's table, a
+   distribution, equal to the state's queries; a bandit sample in support stays in support *)
+Theorem adaptor_rows : forall S bpol bprob, is_dist bpol -> agrees bpol bprob ->
+  length (adapt_policy S bpol) = S /\
+  forall s, (s < S)%nat ->
+    row (adapt_policy S bpol) s = bpol /\ is_dist (row (adapt_policy S bpol) s) /\
+    agrees (row (adapt_policy S bpol) s) (adapt_prob bprob s) /\
+    (forall b, in_support bpol b -> in_support (row (adapt_policy S bpol) s) (adapt_sample b s)).
+Proof. exact adaptor_rows_lemma. Qed.
+Print Assumptions adaptor_rows.
+
+(* MDP::RandomPolicy: for every S and A >= 1 every row is a distribution of length A, equals the
+   queries, and the sampled action is < A and in the support *)
+Theorem mdp_random_rows_dist : forall S A, (1 <= A)%nat ->
+  length (mrnd_policy S A) = S /\
+  forall s, (s < S)%nat ->
+    length (row (mrnd_policy S A) s) = A /\ is_dist (row (mrnd_policy S A) s) /\
+    agrees (row (mrnd_policy S A) s) (mrnd_prob S A s) /\
+    (forall draw, (fst (rnd_bounds A) <= draw <= snd (rnd_bounds A))%nat ->
+       (mrnd_sample S A s draw < A)%nat /\ in_support (row (mrnd_policy S A) s) (mrnd_sample S A s draw)).
+Proof. exact mdp_random_rows_dist_lemma. Qed.
+Print Assumptions mdp_random_rows_dist.
+
+Example ex_random_nonvacuous :
+  is_distb (rnd_policy 3) = true /\ forallb is_distb (mrnd_policy 2 3) = true /\
+  length (mrnd_policy 2 3) = 2%nat /\ rnd_bounds 3 = (0%nat, 2%nat) /\ mrnd_sample 2 3 1 2 = 2%nat /\
+  is_distb (row (adapt_policy 2 [1#4; 3#4]) 1) = true.
+Proof. vm_compute. repeat split. Qed.
+
+(* ------------------------------------------------------------------ round 6: Factored::Bandit::RandomPolicy / SingleActionPolicy *)
+
+(* Factored::Bandit::RandomPolicy: every joint action has positive probability and the probabilities
+   sum to one over the whole joint action space (all factor sizes >= 1; size_t wraparound excluded) *)
+Theorem factored_random_dist : forall A, Forall (fun n => (1 <= n)%nat) A ->
+  (forall a, 0 < frnd_prob A a) /\ qsum (map (frnd_prob A) (joint A)) == 1.
+Proof. exact factored_random_dist_lemma. Qed.
+Print Assumptions factored_random_dist.
+
+(* sampleAction: per-agent draws within the bounds of the per-agent distributions give a joint action
+   of the space, of positive probability *)
+Theorem factored_random_sample : forall A draws, Forall (fun n => (1 <= n)%nat) A ->
+  Forall2 (fun b d => (fst b <= d <= snd b)%nat) (frnd_bounds A) draws ->
+  in_space A (frnd_sample A draws) /\ In (frnd_sample A draws) (joint A) /\
+  0 < frnd_prob A (frnd_sample A draws).
+Proof. exact factored_random_sample_lemma. Qed.
+Print Assumptions factored_random_sample.
+
+(* Factored::Bandit::SingleActionPolicy: 0/1-valued, sums to one over the joint space, the sampled
+   action has probability one (current action a member of the space) *)
+Theorem single_action_dist : forall A cur, in_space A cur ->
+  (forall a, sa_prob cur a == 0 \/ sa_prob cur a == 1) /\
+  qsum (map (sa_prob cur) (joint A)) == 1 /\
+  sa_prob cur (sa_sample cur) == 1 /\ In (sa_sample cur) (joint A).
+Proof. exact single_action_dist_lemma. Qed.
+Print Assumptions single_action_dist.
+
+(* the freshly constructed SingleActionPolicy (all-zero action) is in the space *)
+Theorem single_action_init : forall A, Forall (fun n => (1 <= n)%nat) A -> in_space A (sa_init A).
+Proof. exact sa_init_in_space. Qed.
+Print Assumptions single_action_init.
+
+Example ex_factored_nonvacuous :
+  length (joint [2; 3; 2]%nat) = 12%nat /\ factor_space [2; 3; 2]%nat = 12%nat /\
+  Qeq_bool (qsum (map (frnd_prob [2; 3; 2]%nat) (joint [2; 3; 2]%nat))) 1 = true /\
+  Qeq_bool (qsum (map (sa_prob (sa_update (sa_init [2; 3; 2]%nat) [1; 2; 0]%nat)) (joint [2; 3; 2]%nat))) 1 = true /\
+  frnd_sample [2; 3; 2]%nat [1; 0; 1]%nat = [1; 0; 1]%nat.
+Proof. vm_compute. repeat split. Qed.
